@@ -519,7 +519,7 @@ def field_configs(tier):
         for k in zk:
             out.append(("f.zeta%d.%s" % (k, en), "zeta", (k,), "<B as codes::zeta::ZetaWriteParam<%s>>::write_zeta_param" % e,
                         "<B as codes::zeta::ZetaReadParam<%s>>::read_zeta_param" % e, {"E": e, "USE_TABLE": False}, (("usize", k),), U64MAX, True))
-        out.append(("f.omega.%s" % en, "omega", (), "codes::omega::OmegaWrite::write_omega", None, {"E": e}, (), U64MAX, True))
+        out.append(("f.omega.%s" % en, "omega", (), "codes::omega::OmegaWrite::write_omega", "codes::omega::OmegaRead::read_omega", {"E": e}, (), U64MAX, True))
         for k in pk:
             out.append(("f.pi%d.%s" % (k, en), "pi", (k,), "codes::pi::PiWrite::write_pi", "codes::pi::PiRead::read_pi", {"E": e}, (("usize", k),), U64MAX, True))
         for k in rk:
@@ -662,9 +662,46 @@ def replay_reader(F, body, env, extra, c, expect=(1, 0)):
             r = it_.bitop("BitAnd", v, AI("u64", (1 << w) - 1, (1 << w) - 1), "u64") if not (0 <= v.lo and v.hi < (1 << w)) else v
         return mk_variant("std::result::Result", "Ok", [r])
 
+    def field_low(it_, ev):
+        """the emitted field as a value below 2^w"""
+        w = ev[2].const()
+        v = ev[1]
+        if w is None:
+            raise Unsupported("field of non-constant width")
+        if w == 0:
+            return AI("u64", 0, 0), w
+        if w < 64 and not (0 <= v.lo and v.hi < (1 << w)):
+            v = it_.bitop("BitAnd", v, AI("u64", (1 << w) - 1, (1 << w) - 1), "u64")
+        return v, w
+
+    def r_peek(it_, name, args, fargs, fr, t):
+        n = args[1]
+        if not queue or queue[0][0] != "bits" or not isinstance(n, AI) or n.const() != 1:
+            raise Unsupported("peek_bits(%r) where the writer emitted %s" % (n, fmt_ev(queue[0]) if queue else "nothing"))
+        v, w = field_low(it_, queue[0])
+        if w < 1:
+            raise Unsupported("peek into an empty field")
+        if fr.env.get("E") == BE:
+            bit = 1 if v.lo >= (1 << (w - 1)) else 0 if v.hi < (1 << (w - 1)) else None
+        else:
+            c = v.const()
+            bit = (c & 1) if c is not None else ((v.aff[1] & 1) if (v.aff is not None and v.dir is not None and v.aff[0] % 2 == 0) else None)
+        if bit is None:
+            raise Unsupported("the first stream bit of the next field %s is not determined on the cell" % fmt_ev(queue[0]))
+        return mk_variant("std::result::Result", "Ok", [AI("u64", bit, bit)])
+
+    def r_skip_after_peek(it_, name, args, fargs, fr, t):
+        n = args[1]
+        if not queue or queue[0][0] != "bits" or not isinstance(n, AI) or n.const() is None or n.const() != queue[0][2].const():
+            raise Unsupported("skip_bits_after_peek(%r) where the writer emitted %s" % (n, fmt_ev(queue[0]) if queue else "nothing"))
+        queue.pop(0)
+        return ivl.UNIT
+
     hs = handlers()
     hs["traits::bits::BitRead::read_unary"] = r_unary
     hs["traits::bits::BitRead::read_bits"] = r_bits
+    hs["traits::bits::BitRead::peek_bits"] = r_peek
+    hs["traits::bits::BitRead::skip_bits_after_peek"] = r_skip_after_peek
     for tr in ("codes::gamma::GammaReadParam::read_gamma_param", "codes::delta::DeltaReadParam::read_delta_param", "codes::zeta::ZetaReadParam::read_zeta_param",
                "codes::minimal_binary::MinimalBinaryRead::read_minimal_binary", "codes::rice::RiceRead::read_rice"):
         hs[tr] = trait_impl
@@ -758,7 +795,7 @@ def run_c04_fields(chk, F, fs, tier):
 
 
 def run_c03_roundtrip(chk, F, fs, tier):
-    chk.rule("K2.replay", floor=135, doc="round trip at the level of stream primitives, for every value: the reader of each code, interpreted on each cell with read_unary/read_bits answered by the primitives the writer emitted there (same order, same widths, low w bits), consumes all of them and returns exactly n (affine form 1*n+0): gamma, delta, zeta_k, pi_k, Rice_k, minimal binary u, exp-Golomb_k (k <= 3, residue classes); both endiannesses; non-table paths")
+    chk.rule("K2.replay", floor=142, doc="round trip at the level of stream primitives, for every value: the reader of each code, interpreted on each cell with read_unary/read_bits answered by the primitives the writer emitted there (same order, same widths, low w bits), consumes all of them and returns exactly n (affine form 1*n+0): gamma, delta, zeta_k, pi_k, Rice_k, minimal binary u, exp-Golomb_k (k <= 3, residue classes); both endiannesses; non-table paths")
     sfx = "" if fs == "default" else "@" + fs
     for cfg, r in evaluate_fields(F, fs, tier):
         key = cfg[0] + sfx
